@@ -321,6 +321,9 @@ FUNCS.update({
     'k_mixed': _k_mixed,
     'p_mixed': _p_mixed,
     'p_big': lambda x: 10 ** 20 + (x % 10),
+    'p_hash': lambda x: [-1, -2, 5 + (2 ** 61 - 1), 5][x % 10 % 4],            # distinct values, pairwise equal hashes
+    'p_prefix': lambda x: [('a',), ('a', 'b'), ()][x % 10 % 3],                # tuples in prefix relation
+    'p_type': lambda x: type(x).__name__,
     'p_falsy': lambda x: [None, 0, ''][x % 10] if x % 10 < 3 else x % 10,      # three distinct falsy predicate values
     'p_str': lambda x: ''.join(['p', str(x % 10)]),
     'mod10': lambda x: x % 10,
